@@ -27,9 +27,9 @@ Section Rules.
   Proof.
     intros (Hwa & _) H. unfold borrow_asset in H. destr_all H.
     - destruct (draw_pool _ _ _ _ _ _ _ H) as (b0 & Hb0 & Hp). eexists _, _, b0. repeat split; eassumption.
-    - unfold holds_C08_pool. rewrite E1, E16. destruct (Hwa _ _ E4) as (_ & Hid). apply Z.leb_le. replace (pr_out p) with dout by lia. lia.
-    - unfold holds_C08_pool. rewrite E1, E16. destruct (Hwa _ _ E4) as (_ & Hid). apply Z.leb_le. replace (pr_out p) with dout by lia. lia.
-    - unfold holds_C08_pool. rewrite E1, E16. destruct (Hwa _ _ E4) as (_ & Hid). apply Z.leb_le. replace (pr_out p) with dout by lia. lia.
+    - unfold holds_C08_pool. rewrite E3, E18. destruct (Hwa _ _ E6) as (_ & Hid). apply Z.leb_le. replace (pr_out p) with dout by lia. lia.
+    - unfold holds_C08_pool. rewrite E3, E18. destruct (Hwa _ _ E6) as (_ & Hid). apply Z.leb_le. replace (pr_out p) with dout by lia. lia.
+    - unfold holds_C08_pool. rewrite E3, E18. destruct (Hwa _ _ E6) as (_ & Hid). apply Z.leb_le. replace (pr_out p) with dout by lia. lia.
   Qed.
 
   (* ---------- IterateLends: what it does to the position and what it leaves alone ---------- *)
@@ -94,7 +94,7 @@ Section Rules.
   Definition op_sane (o : op) : Prop := match o with OSetPrice _ (Some p) => 0 <= p | _ => True end.
 
   Lemma step_prices_ok st o st' :
-    Good cfg st -> kf_C08_2 st o = false -> PricesOk (prices st) -> op_sane o -> step cfg st o = Ok st' -> PricesOk (prices st').
+    Good cfg st -> kf_books st o = false -> PricesOk (prices st) -> op_sane o -> step cfg st o = Ok st' -> PricesOk (prices st').
   Proof.
     intros HG Hkf HP Hs H. destruct (is_setprice o) eqn:Eo.
     - destruct o; try discriminate. cbn [step] in H. injection H as <-. cbn [prices]. intros a q.
